@@ -70,12 +70,13 @@ func (n *Node) applyToTip(e *blockEntry) error {
 		return fmt.Errorf("panic: %s", p)
 	}
 	w.postValidate(n, snap, parentState, e.b, supp, verr)
+	ats := n.ancestorTimestamp(n.blocks[e.parent])
+	w.concRecord(parentState, e.b, supp, ats, verr, fmt.Sprintf("block %s at height %d", short(e.id), e.height))
 	if verr != nil {
 		return verr
 	}
 	var ns consensus.State
 	var au consensus.ApplyUpdate
-	ats := n.ancestorTimestamp(n.blocks[e.parent])
 	if p := guard(func() { ns, au = consensus.ApplyBlock(parentState, e.b, supp, ats) }); p != "" {
 		w.violate("C10", "apply-panic", fmt.Sprintf("ApplyBlock panicked on validated block %s at height %d: %s", short(e.id), e.height, p))
 		return fmt.Errorf("panic: %s", p)
